@@ -70,7 +70,13 @@ impl<const N: usize> AntiAmplifier<N> {
 
     pub fn on_sent(&self, amount: usize) {
         if self.state.load(Ordering::Acquire) == Self::NORMAL {
-            self.credit.fetch_sub(amount, Ordering::AcqRel);
+            // Saturating debit: sending more than the credit (a padded or multi-segment burst)
+            // must exhaust the credit, not wrap it around into an effectively unlimited allowance.
+            let _ = self
+                .credit
+                .fetch_update(Ordering::AcqRel, Ordering::Acquire, |credit| {
+                    Some(credit.saturating_sub(amount))
+                });
         }
     }
 
